@@ -15,6 +15,7 @@ import AgeModel.Extracted.Consts
 import AgeModel.SpecConsts
 import AgeModel.Concrete
 import AgeModel.File
+import Proofs.GoTieNative
 namespace AgeModel
 namespace Tie.C05
 open SpecConsts
@@ -150,6 +151,40 @@ theorem model_constants :
     AgeModel.fileKeySize = SpecConsts.fileKeySize ∧ AgeModel.streamNonceSize = SpecConsts.streamNonceSize ∧
     AgeModel.scryptSaltSize = SpecConsts.scryptSaltSize := by
   decide
+
+/-! ## The code itself: the native stanzas (DESIGN.md §5.3)
+
+`(*X25519Recipient).Wrap`, `(*ScryptRecipient).Wrap` and `.WrapWithLabels` are TRANSLATED from
+x25519.go / scrypt.go on every run; the primitives (`curve25519.X25519`, HKDF-SHA256, `scrypt.Key`,
+`aeadEncrypt`, base64, `crypto/rand` as a tape) are parameters, bundled with what is assumed of them
+in `GoTie.NativeEnv`. The stanza the source writes — type, arguments, salt layout
+`ephemeral share ‖ recipient`, info label, `label ‖ salt` and `N = 2^logN, r = 8, p = 1` for scrypt,
+the work factor in decimal, what is drawn from the random source and in which order — is the
+stanza of the model (`wrapOne`, `wrapX25519`, `wrapScrypt`), whose bytes `Props.C05` compares
+with the specification. -/
+
+theorem x25519_wrap_tie (P : Prims) {κ : Type} (E : GoTie.NativeEnv P κ) (pub fk tape : Bytes) :
+    ∃ res, Extracted.age_X25519Recipient_Wrap (GoTie.tapeRead E.eRand) E.X P.basepoint E.Enc E.H E.R E.Seal ⟨pub⟩ fk tape = .ok res ∧
+      match wrapOne P (.x25519 pub) fk tape with
+      | .error () => res = ([], some E.eRand, tape)
+      | .ok (some (ss, ls), t) => res = (ss.map GoTie.toGoStanza, none, t) ∧ ls = []
+      | .ok (none, t) => res = ([], some E.eX, t) :=
+  GoTie.x25519_wrap_tie P E pub fk tape
+
+theorem scrypt_wrap_tie (P : Prims) {κ : Type} (E : GoTie.NativeEnv P κ) (pw : Bytes) (logN : Nat) (hN : logN < 63) (fk tape : Bytes) :
+    ∃ res, Extracted.age_ScryptRecipient_Wrap (GoTie.tapeRead E.eRand) E.Enc E.K E.Seal ⟨pw, Int.ofNat logN⟩ fk tape = .ok res ∧
+      match draw scryptSaltSize tape with
+      | none => res = ([], some E.eRand, tape)
+      | some (salt, t) => res = ([GoTie.toGoStanza (wrapScrypt P pw logN salt fk)], none, t) :=
+  GoTie.scrypt_wrap_tie P E pw logN hN fk tape
+
+theorem scrypt_wrapWithLabels_tie (P : Prims) {κ : Type} (E : GoTie.NativeEnv P κ) (pw : Bytes) (logN : Nat) (hN : logN < 63) (fk tape : Bytes) :
+    ∃ res, Extracted.age_ScryptRecipient_WrapWithLabels (GoTie.tapeRead E.eRand) E.Enc E.K E.Seal ⟨pw, Int.ofNat logN⟩ fk tape = .ok res ∧
+      match wrapOne P (.scrypt pw logN) fk tape with
+      | .error () => res.2.2.1 = some E.eRand
+      | .ok (some (ss, ls), t) => res = (ss.map GoTie.toGoStanza, ls, none, t)
+      | .ok (none, _) => False :=
+  GoTie.scrypt_wrapWithLabels_tie P E pw logN hN fk tape
 
 end Tie.C05
 end AgeModel
